@@ -172,10 +172,11 @@ func runC18(c *CheckCtx) {
 }
 
 func runC03(c *CheckCtx) {
-	jobs := c.evalJobs([]string{"lisp.EVAL", "lisperror.NewLispError", "(lisperror.LispError).ErrorValue", "lib/core.throw"})
+	// errors must come out of macro expansion, element evaluation, do and Apply as they went in
+	jobs := c.evalJobs([]string{"lisp.EVAL", "lisp.macroexpand", "lisp.eval_ast", "lisp.do", "types.Apply", "lisperror.NewLispError", "(lisperror.LispError).ErrorValue", "lib/core.throw"})
 	c.runJobs(jobs, func(o *Obligation) bool {
 		if o.Fn != "lisp.EVAL" {
-			return o.Kind == "post"
+			return o.Kind == "post" || o.Kind == "step"
 		}
 		if !keepEval(o) {
 			return false
